@@ -1,4 +1,6 @@
 import IpamVerif.Props.C14
+import IpamVerif.Lock
+import IpamVerif.Facts
 /-!
 # C19 — exported pool metrics agree with the pool's real state
 
@@ -8,7 +10,15 @@ The pool model carries the four series the property names: `allocs`
 denominator is the capacity).  For a range configured once (unique label) the
 series of a label are written by one pool only, so the model's fields are the
 series.  That the series are registered and served is a fact about the program
-text, checked on the regenerated fact table (`Facts.lean`, see `Props/C19Facts`).
+text, checked on the regenerated fact table (`Facts.lean`, theorem `metricsServed` in `Props/C16`).
+
+"At all times" includes callers on several goroutines: the pool has a mutex of its own.  The theorems
+above are about one-at-a-time histories; that concurrent calls on one pool are such a history rests on
+the pool's lock discipline, which is a fact about the program text: `Facts.poolGraph` (regenerated from
+`multicidrset/*.go` on every run; every method split at its `Lock(); defer Unlock()` pair; a field is
+*mutable* when some method writes it) is accepted by the same checker as the allocator's table
+(`pool_state_only_under_pool_lock`, `pool_lock_not_reentered`), and `Lock.mutex_reduction` turns
+lock-protected bodies into a serial order.
 -/
 namespace Ipam.C19
 
@@ -52,5 +62,35 @@ theorem next_changes_no_series {p : Pool} (hI : p.Inv) {c k : Nat} {p' : Pool} (
 example : ((Pool.new ⟨.v4, 0x0a000000, 24, 26⟩ "10.0.0.0/24").run
     [.occupy ⟨.v4, 0x0a000040, 27⟩, .occupy ⟨.v4, 0x0a000040, 26⟩, .release ⟨.v4, 0x0a000040, 28⟩,
      .release ⟨.v4, 0x0a000040, 28⟩, .occupy ⟨.v4, 0x0a000000, 16⟩]).allocs = 5 := by decide
+
+/-! ### the pool's own lock (regenerated table) -/
+open Ipam.Lock in
+theorem pool_checker_accepts : checker Facts.poolGraph = true := by decide +kernel
+
+open Ipam.Lock in
+/-- the counters, the used-block map and the cursor of a pool are only accessed by code that runs between
+the method's `Lock()` and its deferred `Unlock()` -/
+theorem pool_state_only_under_pool_lock (n : String) (hr : ReachU Facts.poolGraph n) (f : Fn)
+    (hl : Facts.poolGraph.lookup n = some f) (ht : f.touches = true) : f.holdsLock = true :=
+  checker_sound_touch Facts.poolGraph pool_checker_accepts n hr f hl ht
+
+open Ipam.Lock in
+theorem pool_lock_not_reentered (n : String) (hr : ReachL Facts.poolGraph n) (f : Fn)
+    (hl : Facts.poolGraph.lookup n = some f) : f.acquires = false :=
+  checker_sound_no_reacquire Facts.poolGraph pool_checker_accepts n hr f hl
+
+/-- non-vacuity: the three state-changing methods are entry points, their locked parts touch the state,
+and the counter the series are computed from is among the mutable fields -/
+example : ["MultiCIDRSet.NextCandidate", "MultiCIDRSet.Occupy", "MultiCIDRSet.Release"].all
+    (fun m => (Ipam.Lock.rootsU Facts.poolGraph).contains m) = true := by decide +kernel
+example : (Facts.poolGraph.fns.filter (fun f => f.holdsLock && f.touches)).map (·.name) =
+    ["MultiCIDRSet.NextCandidate$locked", "MultiCIDRSet.Occupy$locked", "MultiCIDRSet.Release$locked"] := by decide +kernel
+example : Facts.poolMutableFields.contains "allocatedCIDRs" = true := by decide
+
+/-- the five metric vectors are registered and `/metrics` is bound to the Prometheus handler (C19) -/
+theorem metricsServed : Facts.metricsEndpoint = true ∧
+    ["multicidrset_cidrs_allocations_total", "multicidrset_cidrs_releases_total", "multicidrset_usage_cidrs", "multicirdset_max_cidrs"].all
+      (fun m => Facts.metricsRegistered.contains m) = true := by decide
+
 
 end Ipam.C19
